@@ -190,6 +190,25 @@ def check_containers(case):
             gone = [k for k, o in enumerate(lst) if all(o is not w for w in work)]
             raise Violation("containers", "remove-wrong", "list.remove(%r) removed position(s) %r of %r, expected %d" % (
                 pool[probe], gone, [pool[i] for i in seq], first))
+    # designs move: after the objects above have been hashed and compared, every one of them is moved IN PLACE
+    # (coordinate by coordinate, as position updates and clipping do) onto the design of the probe; now they are all
+    # the same design point - equal, hashing alike, one member in a set
+    with guard("containers"):
+        for o in lst:
+            for t_ in range(len(o.vector)):
+                o.vector[t_] = pool[probe][t_]
+        moved_eq = all(o == x and x == o for o in lst)
+        hashes = {hash(o) for o in lst} | {hash(x)}
+        s2 = set(lst + [x])
+    if not moved_eq:
+        raise Violation("containers", "moved-design-unequal", "objects moved in place onto %r do not compare equal to it" % (
+            pool[probe],))
+    if len(hashes) != 1:
+        raise Violation("containers", "moved-design-hash", "objects moved in place onto the same design %r have %d "
+                        "different hashes" % (pool[probe], len(hashes)))
+    if len(s2) != 1:
+        raise Violation("containers", "moved-design-set", "set() over %d objects holding the design %r has %d members" % (
+            len(lst) + 1, pool[probe], len(s2)))
     return {"nt": _pool_nt(pool), "classes": ["pool%d" % len(pool), "member" if exp_in else "absent"]}
 
 
@@ -298,8 +317,15 @@ def generate_cases(draw):
     c = draw(pool_cases())
     n_pop = draw(st.integers(2, 6))   # N >= 2 (C09); N == 1 is outside the documented domain
     # script = indices into the pool (children in the order the operators will emit them)
-    script = draw(st.lists(st.integers(0, len(c["pool"]) - 1), min_size=2, max_size=16))
-    return {"pool": c["pool"], "script": script, "N": n_pop}
+    pool = [list(v) for v in c["pool"]]
+    # the same design again up to numerical noise: every coordinate within 1e-10 (3e-11 / 8e-11 off), although the
+    # Euclidean distance of the two vectors may exceed 1e-10; only for coordinates of moderate size (ulp << 1e-11)
+    for _ in range(draw(st.integers(0, 2))):
+        src = pool[draw(st.integers(0, len(c["pool"]) - 1))]
+        if all(abs(x) <= 100.0 for x in src):
+            pool.append([x + draw(st.sampled_from([0.0, 3e-11, -3e-11, 8e-11, -8e-11, 8e-11])) for x in src])
+    script = draw(st.lists(st.integers(0, len(pool) - 1), min_size=2, max_size=16))
+    return {"pool": pool, "script": script, "N": n_pop}
 
 
 def check_generate(case):
@@ -348,24 +374,24 @@ def check_generate(case):
     # (the last slot is always filled by the next first-child, as the code documents "always create new individual"
     #  only for an empty list: a duplicate child1 is skipped while the list is short)
     kept = []
-    keys = []
     for vec, key in emitted:
         if len(kept) >= N:
             break
-        if key in keys:
+        if any(expected_equal(vec, w) for w in kept):
             continue
-        keys.append(key)
         kept.append(vec)
     got = [list(o.vector) for o in offs]
     if len(got) != N:
         raise Violation("generate", "generate-size", "generate returned %d offspring for N=%d" % (len(got), N))
     if got != kept:
         # distinguish: a distinct design discarded vs. a duplicate kept
-        dup = len(set(map(tuple, got))) != len(got)
+        dup = any(expected_equal(got[i], got[j]) for i in range(len(got)) for j in range(i))
         raise Violation("generate", "generate-kept-duplicate" if dup else "generate-dropped-distinct",
                         "children %r, N=%d -> offspring %r, expected %r" % ([e[0] for e in emitted], N, got, kept))
     rep = len(set(script)) < len(script)
-    return {"nt": _pool_nt(pool) and rep, "classes": ["repeat-in-script" if rep else "no-repeat", "N%d" % N]}
+    noisy = any(pool[i] != pool[j] and expected_equal(pool[i], pool[j]) for i in set(script) for j in set(script))
+    return {"nt": _pool_nt(pool) and rep, "classes": ["repeat-in-script" if rep else "no-repeat", "N%d" % N] + (
+        ["repeat-up-to-noise"] if noisy else [])}
 
 
 CLAUSES = [
